@@ -116,6 +116,24 @@ Example C13_def_sig_example :
 Proof. exact def_sig_example. Qed.
 Print Assumptions C13_def_sig_example.
 
+(* ---- the owning class of an unannotated self --------------------------------- *)
+(* the runtime route walks function.__qualname__; for a class nested to any depth in classes
+   it finds the innermost class (the one the def route takes from the enclosing ClassDef) *)
+Theorem C13_gen_self_walk : self_walk_on_previous = true.
+Proof. exact gen_self_walk. Qed.
+Print Assumptions C13_gen_self_walk.
+
+Theorem C13_owner_resolved_at_any_depth : forall names, names <> [] ->
+  exists c, owner_from_qualname (chain names) names = Some c /\ cname c = last names 0%N.
+Proof. exact owner_resolved_at_any_depth. Qed.
+Print Assumptions C13_owner_resolved_at_any_depth.
+
+Theorem C13_owner_on_module_fails_when_nested : forall n1 n2 rest,
+  N.eqb n1 n2 = false ->
+  owner_from_qualname_on_module (chain (n1 :: n2 :: rest)) (n1 :: n2 :: rest) = None.
+Proof. exact owner_on_module_fails_when_nested. Qed.
+Print Assumptions C13_owner_on_module_fails_when_nested.
+
 (* ---- calls ---------------------------------------------------------------- *)
 (* full strength: the same call (any raw argument list) judged by the binder of C05
    against both signatures: same verdict, same binding, same declared type for every
